@@ -169,6 +169,12 @@ static void oracle(bool thorough)
         }
         ++ncases;
         if ((ll)r.size() != b - a + 1) fail("size", a, b, 0, 0, r.size(), 0, b - a + 1, 0);
+        // the compound operators with the object itself as the operand (both operands are the same interval)
+        if (2 * a >= -128 && 2 * b <= 127) { R q = r; q += q; ++ncases; if (q.first() != 2 * a || q.last() != 2 * b) fail("add_self", a, b, 0, 0, q.first(), q.last(), 2 * a, 2 * b); }
+        if (a - b >= -128 && b - a <= 127) { R q = r; q -= q; ++ncases; if (q.first() != a - b || q.last() != b - a) fail("sub_self", a, b, 0, 0, q.first(), q.last(), a - b, b - a); }
+        { ll t1 = a * a, t2 = a * b, t4 = b * b; ll mn = std::min(std::min(t1, t2), t4), mx = std::max(std::max(t1, t2), t4);
+          if (mn >= -128 && mx <= 127) { R q = r; q *= q; ++ncases; if (q.first() != mn || q.last() != mx) fail("mul_self", a, b, 0, 0, q.first(), q.last(), mn, mx); } }
+        { R q = r; q &= q; R u = r; u |= u; ++ncases; if (q.first() != a || q.last() != b || u.first() != a || u.last() != b) fail("and_or_self", a, b, 0, 0, q.first(), q.last(), a, b); }
     }
     // binary operations: all interval pairs over a window plus the type's boundaries
     std::vector<ll> v;
